@@ -28,7 +28,7 @@ var c15names = []string{"alpha", "beta", "gamma"}
 // pointer-form routes: built from pointer AST nodes as API users (and pkg/jit's own tests) build
 // them; the optimizer only rewrites this form, so only here do the optimised tiers differ from
 // the baseline. "p-orders" assigns literals to variables that "p-items" reads from its inputs.
-var c15ptrNames = []string{"p-orders", "p-items"}
+var c15ptrNames = []string{"p-orders", "p-items", "p-consts"}
 
 func c15ptrRoute(name string, v int) *ast.Route {
 	lit := func(n int) ast.Expr { return &ast.LiteralExpr{Value: ast.IntLiteral{Value: int64(n)}} }
@@ -47,6 +47,40 @@ func c15ptrRoute(name string, v int) *ast.Route {
 			&ast.ReturnStatement{Value: &ast.ObjectExpr{Fields: []ast.ObjectField{
 				{Key: "r", Value: str("p-orders")}, {Key: "v", Value: lit(v)}, {Key: "y", Value: vr("w")}, {Key: "lim", Value: vr("lim")},
 			}}},
+		}}
+	}
+	if name == "p-consts" {
+		// constant expressions of mixed kinds (an integer next to a float, comparisons between
+		// them, integer division and remainder, a branch on a constant condition): whatever a
+		// tier computes ahead of time must be what the baseline computes at run time
+		flt := func(x float64) ast.Expr { return &ast.LiteralExpr{Value: ast.FloatLiteral{Value: x}} }
+		bin := func(l ast.Expr, op ast.BinOp, r ast.Expr) ast.Expr { return &ast.BinaryOpExpr{Left: l, Op: op, Right: r} }
+		as := func(t string, e ast.Expr) ast.Statement { return &ast.AssignStatement{Target: t, Value: e} }
+		ret := func(verdict string) []ast.Statement {
+			var fs []ast.ObjectField
+			fs = append(fs, ast.ObjectField{Key: "r", Value: str("p-consts")}, ast.ObjectField{Key: "v", Value: lit(v)}, ast.ObjectField{Key: "verdict", Value: str(verdict)})
+			for _, k := range []string{"eq", "ne", "lt", "le", "sum", "quot", "rem", "fq", "neg", "negrem", "negquot", "both", "prod"} {
+				fs = append(fs, ast.ObjectField{Key: k, Value: vr(k)})
+			}
+			return []ast.Statement{&ast.ReturnStatement{Value: &ast.ObjectExpr{Fields: fs}}}
+		}
+		return &ast.Route{Method: ast.Get, Path: "/consts", Body: []ast.Statement{
+			as("total", lit(10+v)),
+			as("paid", flt(float64(10+v))),
+			as("eq", bin(vr("total"), ast.Eq, vr("paid"))),
+			as("ne", bin(lit(10+v), ast.Ne, flt(float64(10+v)))),
+			as("lt", bin(vr("total"), ast.Lt, flt(float64(10+v)+0.5))),
+			as("le", bin(flt(float64(10+v)), ast.Le, lit(10+v))),
+			as("sum", bin(vr("total"), ast.Add, flt(0.5))),
+			as("quot", bin(vr("total"), ast.Div, lit(4))),
+			as("rem", bin(vr("total"), ast.Mod, lit(4))),
+			as("fq", bin(vr("paid"), ast.Div, lit(4))),
+			as("neg", bin(lit(0), ast.Sub, vr("total"))),
+			as("negrem", bin(bin(lit(0), ast.Sub, lit(10+v)), ast.Mod, lit(4))),
+			as("negquot", bin(bin(lit(0), ast.Sub, lit(10+v)), ast.Div, lit(4))),
+			as("both", bin(bin(lit(1), ast.Lt, lit(2)), ast.And, bin(flt(1.5), ast.Gt, lit(2)))),
+			as("prod", bin(flt(1.5), ast.Mul, lit(v))),
+			&ast.IfStatement{Condition: bin(vr("total"), ast.Eq, vr("paid")), ThenBlock: ret("same"), ElseBlock: ret("different")},
 		}}
 	}
 	// arithmetic on a value that is only known at run time (q is an integer input), written with
